@@ -78,6 +78,14 @@ def scenarios(quick):
         order = eob_rules[rot:] + eob_rules[:rot]
         eob = ["compiler 0", "add 0 - " + yv.hx(" ".join(order)), "getrules 0 0", "cdestroy 0"]
         add("scan:end-of-block-candidates:%d" % rot, eob, ["scanner 0 0", "scan target=s0 via=mem data=" + yv.hx(b"q" * 90 + b"x7abcd"), "sdestroy 0"])
+    # the iterators notebook takes a new page in the middle of an evaluation (> 512 loop starts): the loop start that needs the page is of EVERY iterator kind in turn
+    # (each kind has its own opcode and its own error handling)
+    inner = {"int-enum": "for any j in (2,4,6) : (i + j > 6)", "int-range": "for any j in (2..4) : (i + j > 4)", "string-set": "for any of ($a, $b) : ($)",
+             "text-set": 'for any t in ("a", "bb") : (t == "bb")', "array": "for any x in tests.integer_array : (x == 1)", "dict": 'for any k, v in tests.string_dict : (k == "foo")',
+             "of-rule-set": "any of (it_*)"}
+    for kind, body in inner.items():
+        src = 'import "tests" rule it_a { condition: true } rule loops { strings: $a = "aa" $b = "bc" condition: $a and for all i in (1..600) : (%s) }' % body
+        add("scan:iterator-page:" + kind, ["compiler 0", "add 0 - " + yv.hx(src), "getrules 0 0", "cdestroy 0"], ["scanner 0 0", "scan target=s0 via=mem data=" + yv.hx(b"..aa..bc.."), "scan target=s0 via=mem data=" + yv.hx(b"..aa..bc.."), "sdestroy 0"])
     add("init-fini", [], ["fini", "init"])
     return S
 
